@@ -21,6 +21,10 @@ claimed = {
    text="Deductive proof of the state-machine slice: the ShapeIndex bookkeeping invariant SI (ids below nextID present, none above, pendingAdditionsPos <= nextID, fresh => nothing pending, lock free) is established by NewShapeIndex and preserved by Add, Reset, Build, Iterator, Begin, End, maybeApplyUpdates and applyUpdatesInternal from every SI-state, so it holds after every finite sequence of these operations (induction over histories, no bound); the update path never re-enters the index lock (mutex word modelled in memory, Lock requires it free); Loop.Invert re-establishes 'index holds exactly this loop, pending from 0'; every polygon constructor path through initEdgesAndIndex yields a non-nil index; EdgeQuery.FindEdges/Distance/IsDistanceLess/IsDistanceGreater/IsConservative* leave the options pointer and the pointed-to options bit-identical (frame). Equality of float answers across histories beyond these invariants, Remove, and the bodies of the clipping recursion are not decided.",
    note=TRUST+"Assumed contracts: removeShapeInternal, addShapeInternal, updateFaceEdges (bodies outside the subset), findEdgesInternal, sortAndUniqueResults, NewShapeIndexIterator, LocateCellID, PaddedCell.ShrinkToFit, Loop.initBound; unreachability of tracker.lowerBound rests on updateFaceEdges passing disjointFromIndex=isFirstUpdate() (body not verified).",
    design="3 C13"),
+ 'C03': dict(
+   text="Deductive proof of the EdgeCrosser state machine (floats compared exactly, orientation oracle RobustSign as an uninterpreted deterministic function with its documented range, degeneracy and permutation laws): the cache invariant 'acb == -RobustSign(a,b,c) for the remembered c' is established by NewChainEdgeCrosser/RestartAt and preserved by every method on every path (fast triage path, tangent early exit, deferred update on the slow path); consequently ChainCrossingSign, CrossingSign and EdgeOrVertexChainCrossing return, for every prior call history, exactly the stateless value: DoNotCross on the same-side/tangent exits, MaybeCross iff an endpoint is shared (else), Cross iff the four orientations alternate; lemma: the four-orientation criterion is invariant under reversing either edge and swapping the edges. The numerical facts (triageSign and expensiveSign agree with the exact sign, the tangent test's error bound) are assumed, the VertexCrossing case analysis is used as an uninterpreted function: NOT decided.",
+   note=TRUST+"Assumed contracts: RobustSign (range, zero iff repeated argument, rotation/swap laws: property C02, not decided), triageSign (0 or the oracle's value), expensiveSign (the oracle's value for distinct points), VertexCrossing (deterministic). The tangent early exit is mirrored in the stateless specification (same comparison, same constant); that exit implying 'no crossing' geometrically is numerical and not decided.",
+   design="3 C03"),
  'C16': dict(
    text="Deductive proof of the order-independence slice (exact IEEE comparisons, all non-NaN points): compareEdges is independent of the direction of either edge and never orders two edges both ways; intersectionStable evaluates its numerical core on the same argument tuple whichever way the two edges are passed (core as an uninterpreted deterministic function), hence is bit-identical under swapping the edges; thorough tier: the exact fallback returns the same point under swapping the edges in the collinear case (minimum over the qualifying endpoints; exact cross products and OrderedCCW as uninterpreted deterministic functions). The 8*2^-53 accuracy bound, unit length, and bit-identity of the numerical core under reversing one edge are numerical and NOT decided.",
    note=TRUST+"Assumed (used as deterministic uninterpreted functions): r3.PreciseVector operations, OrderedCCW, intersectionStableSorted. Unverified remainder: accuracy, hemisphere choice, reversal of a single edge inside the numerical core.",
